@@ -1,5 +1,6 @@
 """C15 rules: R-ENTER (evaluation inside an entered state at every entry point), sibling pipelines of the C entry
 points, R-PROV (option plumbing field provenance), exit status, NUL framing, R-COVER(visit) for jrsonnet-deps."""
+import re
 from .. import hir as H
 from ..mir import strip, show, short_path, contains
 from ..report import ok, bad, info, site, Floor
@@ -111,14 +112,27 @@ def run_siblings(prog):
         if f is None:
             obs.append(bad(RULE, key, "", "%s not found" % name))
             continue
+        # NUL bytes written: `push(0)` is one; a constant byte array handed to extend_from_slice (`&[0, 0]`, b"\\0\\0") counts with its
+        # length (the driver does not evaluate promoted array constants, so their contents are taken to be the terminator)
         pushes = 0
+        opaque = 0
         for b, t in f.calls():
-            if (t.get("fn") or "").endswith("Vec::<T, A>::push") and not f.is_cleanup(b):
+            if f.is_cleanup(b):
+                continue
+            fn = t.get("fn") or ""
+            if fn.endswith("Vec::<T, A>::push"):
                 v = strip(f.desc_op(t["args"][1]))
                 if v == ("const", 0):
                     pushes += 1
-        obs.append(ok(RULE, key, site(f), "%d NUL pushes (separators + double terminator)" % pushes) if pushes == want else
-                   bad(RULE, key, site(f), "expected %d NUL pushes (separators + two terminators), found %d" % (want, pushes)))
+            elif fn.endswith("Vec::<T, A>::extend_from_slice"):
+                v = strip(f.desc_op(t["args"][1]))
+                m = re.match(r"&\[u8; (\d+)\]$", str(v[4])) if v[0] == "cast" and len(v) > 4 and v[2][0] == "const" else None
+                if m:
+                    pushes += int(m.group(1))
+                    opaque += int(m.group(1))
+        note = " (%d of them in a constant byte array whose contents the driver does not see)" % opaque if opaque else ""
+        obs.append(ok(RULE, key, site(f), "%d NUL bytes (separators + double terminator)%s" % (pushes, note)) if pushes == want else
+                   bad(RULE, key, site(f), "expected %d NUL bytes (separators + two terminators), found %d" % (want, pushes)))
     return obs, [Floor(RULE, "C entry points", len([p for p in C_ENTRY if prog.fn(p)]), 6)], {}
 
 
